@@ -369,15 +369,15 @@ def run(ctx):
             prog["threads"].append([["log", mod, "INFO"]])
         dfs_schedules(prog, bound=2, limit=ctx.n(60, 600),
                       on_run=lambda r, pre_, prog=prog: judge(r, pre_, prog, "dfs-activation"))
-    nprog = ctx.n(30, 150) * boost
-    per_prog = ctx.n(35, 400)
+    nprog = ctx.n(30, 80) * boost
+    per_prog = ctx.n(35, 200)
     for pi in range(nprog):
         prog = gen_program(rng.fork("p%d" % pi), nthreads=(2 if ctx.quick else None))
         if pi < 2:
             ctx.sample({"program": prog})
         dfs_schedules(prog, bound=ctx.n(2, 3), limit=per_prog,
                       on_run=lambda r, pre, prog=prog: judge(r, pre, prog, "dfs"))
-    nrand = ctx.n(300, 20000) * boost
+    nrand = ctx.n(300, 5000) * boost
     for i in range(nrand):
         r2 = rng.fork("r%d" % i)
         prog = gen_program(r2, maxops=3)
